@@ -85,6 +85,16 @@ def run(ck):
             e = "OK " + (b"".join(le16(v) for v in vals) * 2 + le16(after_addr)).hex()
         progs.append((arch, "\n".join(text) + "\n")); expect.append(e)
         meta.append(len(lines) if any("@align" in l or "@ds" in l for l in lines) else 0)
+    # a struct is a layout, not storage: where the address counter stands when it is declared does not matter
+    for arch in asmk.ARCHES:
+        for org in (0xFFFC, 0xFFFF, 0x10000 - 2):
+            progs.append((arch, "@org $%x\n@db 1, 2\n@struct SS\n f1 2\n @ds 6\n f2 1\n @align 16\n f3 @dw\n@endstruct\n@org 0\n@dw SS, SS.f2, SS.f3\n" % (org - 2)))
+            expect.append("OK 0102" + (le16(18) + le16(8) + le16(16)).hex()); meta.append(3)
+    # sums of a field's size and its offset, written before the declaration (solved lazily) and after it (folded at once)
+    for arch in asmk.ARCHES:
+        for ex, v in (("@sizeof SS.f2 + SS.f2", 3 + 2), ("SS.f2 + @sizeof SS.f2", 5), ("@sizeof SS.f2 * 256 + SS.f2", 3 * 256 + 2), ("@sizeof SS.f3 - SS.f3 + SS", 1 - 5 + 6)):
+            t = "@dw %s\n@defl lz1, %s\n@dw lz1 + 1\n@struct SS\n f1 2\n f2 3\n f3 @db\n@endstruct\n@dw %s\n@dw lz1 + 1\n" % (ex, ex, ex)
+            progs.append((arch, t)); expect.append("OK " + (le16(v) + le16(v + 1) + le16(v) + le16(v + 1)).hex()); meta.append(3)
     # the scope in force before @struct is restored after @endstruct: also when there was none
     for arch in asmk.ARCHES:
         for use in ["@dw .f1", ".c1:", "@defn .c1, 1", "@db @isdef .f1", "@dw @sizeof .f1"]:
